@@ -219,6 +219,7 @@ type runResult struct {
 	results []string // value text of each evaluation of main (K, then one after the redefinition)
 	traces  []string
 	err     string
+	big     bool // the reference evaluator left its integer range
 	// initMarks: complaint about how often the marked initial value forms of the definitions were evaluated
 	initMarks string
 }
@@ -265,6 +266,7 @@ func reference(c Case, perm []int) runResult {
 			evalMain()
 		}
 	}
+	out.big = m.Big
 	return out
 }
 
@@ -465,6 +467,10 @@ func run(c Case) *h.Result {
 	forward := false
 	for _, perm := range c.Perms {
 		want := reference(c, perm)
+		if want.big {
+			res.Skip = "reference-integers-beyond-2^31"
+			return res
+		}
 		if want.err != "" {
 			return h.Fail("harness: the generated program signals in the reference evaluator: %s\n%s", want.err, describe(c, perm, "-"))
 		}
